@@ -31,7 +31,7 @@ type msizeCase struct {
 }
 
 type msizeOp struct {
-	Kind   string `json:"kind"` // read | readdir
+	Kind   string `json:"kind"` // read | readdir | xread (a read on an attribute fid) | version
 	Offset uint64 `json:"offset"`
 	Count  uint32 `json:"count"`
 }
@@ -50,6 +50,8 @@ func populateMsize(fileSize uint64, nEntries, nameLen int) func(t *memtree.Tree)
 			}
 			f.Truncate(fileSize)
 		}
+		// an extended attribute larger than most limits (read through an attribute fid)
+		f.SetXattr("user.big", patternAt(7, 70000), 0)
 		d, _ := t.Mkdir(t.Root, "dir", 0o755, 0, 0)
 		for i := 0; i < nEntries; i++ {
 			name := fmt.Sprintf("e%05d-", i)
@@ -134,6 +136,30 @@ func runMsizeCase(c msizeCase, st *msizeStats) *fail {
 			}
 			if st != nil {
 				st.nearLimit++
+			}
+		case "xread":
+			// a read on an attribute fid: offset + count inside the 70000-byte value
+			if uint64(op.Offset)+uint64(op.Count) > 70000 || op.Count == 0 {
+				continue
+			}
+			if _, r, f := call(tXattrwalk(1, 7, "user.big")); f != nil {
+				return f
+			} else if r.Type == refcodec.Rlerror {
+				return failf("harness-xattrwalk", "HARNESS-ERROR %s", r)
+			}
+			_, rep, f := call(tRead(7, op.Offset, uint64(op.Count)))
+			if f != nil {
+				return f
+			}
+			if rep.Type == refcodec.Rread {
+				got := rep.Bytes("data")
+				want := patternAt(7, 70000)[op.Offset:]
+				if len(got) > int(op.Count) || !bytes.Equal(got, want[:len(got)]) {
+					return failf("xattr-read-data-wrong", "Tread(offset=%d, count=%d) on an attribute fid with msize %d returned %d bytes that are not the value's", op.Offset, op.Count, msize, len(got))
+				}
+			}
+			if _, _, f := call(tClunk(7)); f != nil {
+				return f
 			}
 		case "read":
 			_, rep, f := call(tRead(1, op.Offset, uint64(op.Count)))
@@ -229,7 +255,7 @@ func genMsizeCase(rt *rapid.T) msizeCase {
 				eff = 4 << 20
 			}
 		}
-		op := msizeOp{Kind: rapid.SampledFrom([]string{"read", "readdir"}).Draw(rt, "kind")}
+		op := msizeOp{Kind: rapid.SampledFrom([]string{"read", "read", "readdir", "readdir", "xread"}).Draw(rt, "kind")}
 		switch rapid.IntRange(0, 5).Draw(rt, "ck") {
 		case 0:
 			op.Count = uint32(rapid.IntRange(0, 2).Draw(rt, "cnt"))
@@ -240,7 +266,12 @@ func genMsizeCase(rt *rapid.T) msizeCase {
 		default:
 			op.Count = uint32(rapid.IntRange(0, int(eff)*2).Draw(rt, "cnt"))
 		}
-		if op.Kind == "read" {
+		if op.Kind == "xread" {
+			op.Offset = uint64(rapid.SampledFrom([]int{0, 0, 1, 4000}).Draw(rt, "xoff"))
+			if op.Count > 66000 {
+				op.Count = uint32(int(eff) - 12 + rapid.IntRange(0, 40).Draw(rt, "xdelta"))
+			}
+		} else if op.Kind == "read" {
 			op.Offset = uint64(rapid.SampledFrom([]int{0, 0, 1, 4000, 70000}).Draw(rt, "off"))
 		} else if c.NEntries > 0 {
 			op.Offset = uint64(rapid.IntRange(0, c.NEntries).Draw(rt, "off"))
